@@ -176,6 +176,16 @@ def relresF (A : FRows) (x b : List Float) : Float :=
   let nb := norm2 b
   if nb.abs > 0 then norm2 r / nb else norm2 r      -- relative to any nonzero right-hand side, however small
 
+/-- rounding uncertainty of *any* evaluation of the relative residual in double precision, `ε · ‖ |A||x| + |b| ‖ / ‖b‖`:
+    on a nearly singular system (`|x|` around 1e13 for `|b|` around 1) two correct evaluations of `b − A x` differ by this
+    much, and "the true residual" is known only up to it -/
+def relresNoise (A : FRows) (x b : List Float) : Float :=
+  let ax := A.map fun row => row.foldl (fun s e => s + e.2.abs * (x.getD e.1 0).abs) 0
+  let v := (b.zip ax).map fun p => p.1.abs + p.2
+  let nb := norm2 b
+  let r := if nb.abs > 0 then norm2 v / nb else norm2 v
+  if r.isFinite then 2e-15 * r else 0
+
 /-! ### C09 -/
 
 /-- doubles arrive as 64-bit patterns, printed signed or unsigned: normalise before comparing -/
@@ -275,22 +285,22 @@ def checkSolve (prop : String) : Rd Verdict := do
   -- reported history = true relative residual of each iterate (independent SpMV and norm)
   if hist.length != iters + 1 then return specFail (base ++ "/spec/history_length") s!"{hist.length} entries for {iters} iterations" feats
   let tr := its.map fun x => relresF A x b0
-  for ((h, t), k) in (hist.zip tr).zipIdx do
+  for (((h, t), x), k) in ((hist.zip tr).zip its).zipIdx do
     let okk := if t.isNaN || h.isNaN then (t.isNaN && h.isNaN) else if t.isInf || h.isInf || t.abs > 1e140 || h.abs > 1e140 then (h.abs > 1e100 && t.abs > 1e100)   -- overflow regime of the squared norms: both must be huge
-               else (h - t).abs ≤ 1e-6 * (t.abs + h.abs) + 1e-12
+               else (h - t).abs ≤ 1e-6 * (t.abs + h.abs) + 1e-12 + relresNoise A x b0
     if !okk then return specFail (base ++ "/spec/history_true") s!"iterate {k}: reported {h}, true {t}" feats
   -- converged means: finite and truly below the tolerance
   if iters < o.maxIter then
     let xf := xfinal.map bitsToFloat
     if xf.any (fun v => !v.isFinite) then return specFail (base ++ "/spec/nonfinite_converged") s!"x={showF xf}" feats
     let t := relresF A xf b0
-    if !(t ≤ o.tol * (1 + 1e-6) + 1e-300) then
+    if !(t ≤ o.tol * (1 + 1e-6) + 1e-300 + relresNoise A xf b0) then
       return specFail (base ++ "/spec/converged_but_large_residual") s!"iters={iters} < {o.maxIter}, true relres={t} > tol={o.tol}" feats
   -- stop logic: the model's loop over the code's own iterates
   let cyc (x : List Float) : List Float := match its.idxOf? x with
     | some k => its.getD (k+1) x
     | none => x
-  let borderline := tr.any fun t => (t - o.tol).abs ≤ 1e-6 * o.tol
+  let borderline := (tr.zip its).any fun p => (p.1 - o.tol).abs ≤ 1e-6 * o.tol + relresNoise A p.2 b0
   -- the model's order is total; the code's test `!(r_norm <= tol)` reads a residual that is not a number as "not below the
   -- tolerance", i.e. as +infinity
   let m := Cycle.solve cyc (fun x => let r := relresF A x b0; if r.isNaN then (1.0 / 0.0) else r) o.tol o.maxIter x0
